@@ -296,6 +296,8 @@ func selftestMain(args []string) int {
 			defer wg.Done()
 			defer func() { <-sem }()
 			cmd := osexec.Command(self, "mutant", j.dir, j.name)
+			// three children share the machine: four solver processes each
+			cmd.Env = append(os.Environ(), "GOVC_PROCS=4")
 			out, err := cmd.CombinedOutput()
 			code := 0
 			if err != nil {
